@@ -262,7 +262,7 @@ func init() {
 			// (reached only when the operator differs from every declared constant)
 			m += runEnumPanics(c, r, "TAB", libFuncsIn(c, c.REval), map[string]bool{"jparse.NumericOperator": true, "jparse.ComparisonOperator": true, "jparse.BooleanOperator": true})
 			r.RequireMin("TAB operator dispatches in the evaluator (switch statements and exhaustive comparison chains)", m, 3)
-			k := runRegistrationSwitch(c, r, "TAB")
+			k, _ := runRegistrationSwitch(c, r, "TAB")
 			r.RequireMin("TAB led/nud registration-vs-switch checks", k, 4)
 			ot := runOPTAB(c, r, "OPTAB")
 			r.RequireMin("OPTAB operator-table obligations", ot, 17)
@@ -868,6 +868,9 @@ func init() {
 			m += runEnumPanics(c, r, "TAB", libFuncsIn(c, c.REval), nil)
 			r.RequireMin("TAB enum dispatches with a panicking/erroring default (switch statements and exhaustive comparison chains)", m, 4)
 			tabProved := map[string]bool{"jsonata.eval": true, "jsonata.evalNumericOperator": true, "jsonata.evalComparisonOperator": true, "jsonata.evalBooleanOperator": true}
+			if df := evalDispatchFn(c); df != nil {
+				tabProved[shortFn(df)] = true
+			}
 			p := runPanics(c, r, "PANIC", c.REval, tabProved)
 			r.RequireMin("PANIC explicit panic sites under Eval", p, 5)
 			counts := runLOOP(c, r, "LOOP", srcFuncsIn(c.REval), c.REval)
@@ -1266,9 +1269,12 @@ func init() {
 			r.RequireMin("LOOP accept predicates and acceptRune arguments", n, 10)
 			k := runRecursion(c, r, "REC", c.RCompile)
 			r.RequireMin("REC recursive SCCs under Compile", k, 4)
-			m := runRegistrationSwitch(c, r, "TAB")
+			m, dispatchFns := runRegistrationSwitch(c, r, "TAB")
 			r.RequireMin("TAB led/nud registration-vs-switch checks", m, 4)
 			tabProved := map[string]bool{"jparse.parseBoolean": true, "jparse.parseNumericOperator": true, "jparse.parseComparisonOperator": true, "jparse.parseBooleanOperator": true}
+			for fn := range dispatchFns {
+				tabProved[fn] = true
+			}
 			p := runPanics(c, r, "PANIC", c.RCompile, tabProved)
 			r.RequireMin("PANIC string panics under Compile", p, 4)
 			var pf []*ssa.Function
